@@ -444,6 +444,50 @@ Definition for_bail_diag (close_type : Z) (ds : diags) : M (expr * diags) :=
   rec <- get_recovery ;;
   for_bail close_type (ds ++ when (negb rec) D_InvalidFor).
 
+(* segments of finishParsingForExpr *)
+(* `for k, v in` / `for v in`: the iterator names; None = a name is missing *)
+Definition for_names : M (option (list Z * list Z)) :=
+  v1 <- read ;;
+  p <- peek ;;
+  if pty p =? TokenComma then
+    _ <- read ;;
+    p <- peek ;;
+    if negb (pty p =? TokenIdent) then ret None
+    else v2 <- read ;; ret (Some (pbytes v1, pbytes v2))
+  else ret (Some ([], pbytes v1)).
+
+(* `valExpr` or `keyExpr => valExpr` *)
+Definition for_key_val : M (option expr * diags * expr * diags) :=
+  '(val_expr, vds) <- p_expression ;;
+  p <- peek ;;
+  if pty p =? TokenFatArrow then
+    _ <- read ;;
+    '(v2, vds2) <- p_expression ;;
+    ret (Some val_expr, vds, v2, vds2)
+  else ret (None, [], val_expr, vds).
+
+Definition for_group : M bool :=
+  p <- peek ;;
+  if pty p =? TokenEllipsis then _ <- read ;; ret true else ret false.
+
+(* `if cond`; the flag says that parsing it failed in recovery mode *)
+Definition for_cond : M (option expr * diags * bool) :=
+  p <- peek ;;
+  if token_matches kw_if p then
+    _ <- read ;;
+    '(c, cds) <- p_expression ;;
+    rec <- get_recovery ;;
+    ret (Some c, cds, rec && derrs cds)
+  else ret (None, [], false).
+
+Definition for_close (close_type : Z) (ds : diags) : M diags :=
+  p <- peek ;;
+  if pty p =? close_type then _ <- read ;; ret ds
+  else
+    rec <- get_recovery ;;
+    _ <- recover f close_type ;;
+    ret (ds ++ when (negb rec) D_InvalidFor).
+
 Definition finish_parsing_for_expr_inner (open_ty : Z) : M (expr * diags) :=
   introducer <- read ;;
   if negb (token_matches kw_for introducer) then panic P_ForIntro else
@@ -452,14 +496,7 @@ Definition finish_parsing_for_expr_inner (open_ty : Z) : M (expr * diags) :=
   let close_type := if make_obj then TokenCBrace else TokenCBrack in
   p <- peek ;;
   if negb (pty p =? TokenIdent) then for_bail_diag close_type [] else
-  v1 <- read ;;
-  p <- peek ;;
-  r <- (if pty p =? TokenComma then
-          _ <- read ;;
-          p <- peek ;;
-          if negb (pty p =? TokenIdent) then ret None
-          else v2 <- read ;; ret (Some (pbytes v1, pbytes v2))
-        else ret (Some ([], pbytes v1))) ;;
+  r <- for_names ;;
   match r with
   | None => for_bail_diag close_type []
   | Some (key_name, val_name) =>
@@ -473,35 +510,15 @@ Definition finish_parsing_for_expr_inner (open_ty : Z) : M (expr * diags) :=
   p <- peek ;;
   if negb (pty p =? TokenColon) then for_bail_diag close_type ds else
   _ <- read ;;
-  '(val_expr, vds) <- p_expression ;;
-  p <- peek ;;
-  '(key_expr, kds, val_expr, vds) <-
-     (if pty p =? TokenFatArrow then
-        _ <- read ;;
-        '(v2, vds2) <- p_expression ;;
-        ret (Some val_expr, vds, v2, vds2)
-      else ret (None, [], val_expr, vds)) ;;
+  '(key_expr, kds, val_expr, vds) <- for_key_val ;;
   let ds := (ds ++ kds) ++ vds in
   rec <- get_recovery ;;
   if rec && (derrs kds || derrs vds) then for_bail close_type ds else
-  p <- peek ;;
-  group <- (if pty p =? TokenEllipsis then _ <- read ;; ret true else ret false) ;;
-  p <- peek ;;
-  r <- (if token_matches kw_if p then
-          _ <- read ;;
-          '(c, cds) <- p_expression ;;
-          rec <- get_recovery ;;
-          ret (Some c, cds, rec && derrs cds)
-        else ret (None, [], false)) ;;
-  let '(cond_expr, cds, bail) := r in
+  group <- for_group ;;
+  '(cond_expr, cds, bail) <- for_cond ;;
   let ds := ds ++ cds in
   if bail then for_bail close_type ds else
-  p <- peek ;;
-  ds <- (if pty p =? close_type then _ <- read ;; ret ds
-         else
-           rec <- get_recovery ;;
-           _ <- recover f close_type ;;
-           ret (ds ++ when (negb rec) D_InvalidFor)) ;;
+  ds <- for_close close_type ds ;;
   let ds :=
     if negb make_obj then
       (ds ++ match key_expr with Some _ => [D_InvalidFor] | None => [] end) ++ when group D_InvalidFor
